@@ -6,6 +6,10 @@
 //!   whose layout differs from the one it was allocated with is recorded as a *contract error*
 //!   (and the call is NOT forwarded for unknown pointers, so a double free cannot corrupt the
 //!   heap of the harness);
+//! * guard bytes: every block is over-allocated by `pad = max(align, 16)` on both sides (the interior pointer keeps
+//!   the requested alignment, the size is NOT rounded up) and the 16 bytes before and after the block carry a
+//!   canary pattern, verified at every `dealloc`/`realloc` and on demand (`guard_check`); a changed canary is the
+//!   error `write-outside-allocation` with the offset of the first changed byte relative to the block;
 //! * optional call log (fixed ring) so an engine can see exactly which `GlobalAlloc` calls the
 //!   code under test made;
 //! * watch list: a small set of pointers whose `dealloc` is counted (used to put `free<k>`
@@ -50,6 +54,20 @@ pub struct ContractError {
     pub align: usize,
     pub live_size: usize,
     pub live_align: usize,
+    /// `write-outside-allocation`: offset of the first changed guard byte relative to the block start
+    /// (negative: in front of the block; `>= size`: behind it)
+    pub offset: isize,
+}
+
+impl ContractError {
+    /// `what`, with the offset for guard violations (`write-outside-allocation@+17/size=17`)
+    pub fn label(&self) -> String {
+        if self.what == "write-outside-allocation" {
+            format!("{}@{:+}/size={}", self.what, self.offset, self.live_size)
+        } else {
+            self.what.to_string()
+        }
+    }
 }
 
 #[derive(Clone, Copy)]
@@ -177,6 +195,7 @@ impl State {
                 align: l.align(),
                 live_size: live.map(|e| e.size).unwrap_or(0),
                 live_align: live.map(|e| e.align).unwrap_or(0),
+                offset: 0,
             });
         }
     }
@@ -218,6 +237,57 @@ impl State {
     }
 }
 
+const GUARD: usize = 16;
+const CANARY: u8 = 0xC5;
+
+/// padding on each side of a block: a multiple of the alignment, at least the guard width
+fn pad(align: usize) -> usize {
+    align.max(GUARD)
+}
+fn outer(size: usize, align: usize) -> Option<Layout> {
+    let total = size.checked_add(2 * pad(align))?;
+    Layout::from_size_align(total, align).ok()
+}
+unsafe fn paint(user: usize, size: usize) {
+    unsafe {
+        std::ptr::write_bytes((user - GUARD) as *mut u8, CANARY, GUARD);
+        std::ptr::write_bytes((user + size) as *mut u8, CANARY, GUARD);
+    }
+}
+/// offset (relative to the block) of the first guard byte that no longer holds the canary
+unsafe fn guard_violation(user: usize, size: usize) -> Option<isize> {
+    for k in 0..GUARD {
+        if unsafe { *((user - GUARD + k) as *const u8) } != CANARY {
+            return Some(k as isize - GUARD as isize);
+        }
+    }
+    for k in 0..GUARD {
+        if unsafe { *((user + size + k) as *const u8) } != CANARY {
+            return Some((size + k) as isize);
+        }
+    }
+    None
+}
+
+impl State {
+    fn check_guards(&mut self, e: Ent) {
+        if let Some(off) = unsafe { guard_violation(e.ptr, e.size) } {
+            self.errors += 1;
+            if self.first_error.is_none() {
+                self.first_error = Some(ContractError {
+                    what: "write-outside-allocation",
+                    ptr: e.ptr,
+                    size: e.size,
+                    align: e.align,
+                    live_size: e.size,
+                    live_align: e.align,
+                    offset: off,
+                });
+            }
+        }
+    }
+}
+
 unsafe impl GlobalAlloc for Checking {
     unsafe fn alloc(&self, l: Layout) -> *mut u8 {
         if with(|s| s.should_fail()) {
@@ -228,7 +298,12 @@ unsafe impl GlobalAlloc for Checking {
             // GlobalAlloc contract violation by the caller: zero-sized allocation
             with(|s| s.error("alloc-zero-size", 0, l, None));
         }
-        let p = unsafe { System.alloc(l) };
+        let Some(ol) = outer(l.size(), l.align()) else { return std::ptr::null_mut() };
+        let base = unsafe { System.alloc(ol) };
+        let p = if base.is_null() { base } else { unsafe { base.add(pad(l.align())) } };
+        if !p.is_null() {
+            unsafe { paint(p as usize, l.size()) };
+        }
         with(|s| {
             if !p.is_null() {
                 s.insert(p as usize, l.size(), l.align());
@@ -239,27 +314,31 @@ unsafe impl GlobalAlloc for Checking {
     }
 
     unsafe fn dealloc(&self, p: *mut u8, l: Layout) {
-        let ok = with(|s| {
+        // the layout the block was really allocated with (the ledger's; the caller's if it is not tracked)
+        let real = with(|s| {
             s.push_log(Call { kind: Kind::Dealloc, ptr: p as usize, size: l.size(), align: l.align(), new_size: 0, ret: 0 });
             match s.find(p as usize) {
-                None if s.overflowed => true,
+                None if s.overflowed => Some((l.size(), l.align())),
                 None => {
                     s.error("dealloc-not-live", p as usize, l, None);
-                    false
+                    None
                 }
                 Some(i) => {
                     let e = s.table[i];
                     if e.size != l.size() || e.align != l.align() {
                         s.error("dealloc-layout-mismatch", p as usize, l, Some(e));
                     }
+                    s.check_guards(e);
                     s.note_free(p as usize, e.size);
                     s.remove(i);
-                    true
+                    Some((e.size, e.align))
                 }
             }
         });
-        if ok {
-            unsafe { System.dealloc(p, l) }
+        if let Some((size, align)) = real {
+            if let Some(ol) = outer(size, align) {
+                unsafe { System.dealloc(p.sub(pad(align)), ol) }
+            }
         }
     }
 
@@ -275,7 +354,8 @@ unsafe impl GlobalAlloc for Checking {
                 if e.size != l.size() || e.align != l.align() {
                     s.error("realloc-layout-mismatch", p as usize, l, Some(e));
                 }
-                Some(i)
+                s.check_guards(e);
+                Some((e.size, e.align))
             }
         });
         if new_size == 0 {
@@ -285,14 +365,25 @@ unsafe impl GlobalAlloc for Checking {
             });
             return std::ptr::null_mut();
         }
+        let grow = |size: usize, align: usize| -> *mut u8 {
+            let (Some(ol), Some(nl)) = (outer(size, align), outer(new_size, align)) else { return std::ptr::null_mut() };
+            let nb = unsafe { System.realloc(p.sub(pad(align)), ol, nl.size()) };
+            if nb.is_null() {
+                return nb;
+            }
+            let q = unsafe { nb.add(pad(align)) };
+            unsafe { paint(q as usize, new_size) };
+            q
+        };
         if live.is_none() && with(|s| s.overflowed) {
-            return unsafe { System.realloc(p, l, new_size) };
+            return grow(l.size(), l.align());
         }
         if live.is_none() || with(|s| s.should_fail()) {
             with(|s| s.push_log(Call { kind: Kind::Realloc, ptr: p as usize, size: l.size(), align: l.align(), new_size, ret: 0 }));
             return std::ptr::null_mut();
         }
-        let q = unsafe { System.realloc(p, l, new_size) };
+        let (osize, oalign) = live.unwrap();
+        let q = grow(osize, oalign);
         with(|s| {
             if !q.is_null() {
                 let i = s.find(p as usize).unwrap();
@@ -300,7 +391,7 @@ unsafe impl GlobalAlloc for Checking {
                     s.note_free(p as usize, 0);
                 }
                 s.remove(i);
-                s.insert(q as usize, new_size, l.align());
+                s.insert(q as usize, new_size, oalign);
             }
             s.push_log(Call { kind: Kind::Realloc, ptr: p as usize, size: l.size(), align: l.align(), new_size, ret: q as usize });
         });
@@ -327,6 +418,15 @@ pub fn containing(ptr: usize, max_back: usize) -> Option<(usize, usize)> {
             }
         }
         None
+    })
+}
+/// verify the guard bytes of a live block now (records `write-outside-allocation` if they changed)
+pub fn guard_check(ptr: usize) {
+    with(|s| {
+        if let Some(i) = s.find(ptr) {
+            let e = s.table[i];
+            s.check_guards(e);
+        }
     })
 }
 pub fn errors() -> (u32, Option<ContractError>) {
